@@ -143,9 +143,11 @@ def h_illumina(n_exons, n_short):
         ok = sorted_disjoint(out, gap=2) if len(out) > 1 else (out[0][0] <= out[0][1])
         g.check(ok, "short-read corrected exons are ascending and non-overlapping", exclude=ex)
         own = introns_of(read)
+        # site level, as the property states it (an output intron may combine a read site with a short-read site when the
+        # corrector inserts overlapping short-read introns)
         for (l, r) in introns_of(out):
-            g.check(OR([AND(l == a[0], r == a[1]) for a in own + list(short)]),
-                    "every intron after short-read correction is a read intron or a short-read intron", exclude=ex)
+            g.check(AND(OR([l == a[0] for a in own + list(short)]), OR([r == a[1] for a in own + list(short)])),
+                    "every splice site after short-read correction is a site of a read intron or of a short-read intron", exclude=ex)
         if not short:
             g.check(len(out) == len(read) and AND([AND(a[0] == b[0], a[1] == b[1]) for a, b in zip(out, read)]), "no short-read introns: unchanged")
     return fn
